@@ -166,9 +166,13 @@ func (d *diff) Set(elements ...Element) {
 	for _, e := range elements {
 		hash := xxhash.Sum64([]byte(e.Id))
 		el := &element{Element: e, hash: hash}
-		d.sl.Remove(el)
+		existed := d.sl.Remove(el) != nil
 		d.sl.Set(el, nil)
-		d.ranges.addElement(hash)
+		if existed {
+			d.ranges.updateElement(hash)
+		} else {
+			d.ranges.addElement(hash)
+		}
 	}
 	d.ranges.recalculateHashes()
 }
